@@ -501,6 +501,11 @@ Definition simple_char_list_len (hdr : str -> N) (s : str) : N := hdr s.
 Definition simple_char_list_item (s : str) (i : N) : res (option N) :=
   match nth_error s (N.to_nat i) with Some c => Ok (Some c) | None => Err 2 end.
 
+(* SimpleGarnishData::parse_add_symbol: symbol_to_name.insert(parse_symbol(from), from) *)
+Definition simple_parse_add_symbol (hash : str -> N) (name : str) : N * str := (hash (symbol_key name), name).
+Definition simple_symbol_name (entry : N * str) (sym : N) : option str :=
+  if fst entry =? sym then Some (snd entry) else None.
+
 (* read every item the way the harness does: for i < len *)
 Fixpoint read_items (item : N -> res (option N)) (n : nat) (i : N) : list (res (option N)) :=
   match n with
